@@ -53,6 +53,32 @@ def run(ctx):
                    "the division by a word length is dominated by a non-zero test on that length" if ok else
                    "a word length is used as divisor without a dominating non-zero test: the operation panics on the empty word instead of returning a (reduced) word", b.span_of(bi))
     ctx.floor("divisions by a word length in free_words", nd, 1)
+    # ---- all rotations and their inverses (T4): relator_permutations / relator_representative
+    ctx.clauses.append("relator permutation set / representative range over all rotations 0..len() and both the rotation and its inverse (T4)")
+    gg = ctx.facts.getters()
+    for fn in ("fpgroups::free_words::relator_permutations", "fpgroups::free_words::relator_representative"):
+        b = ctx.body(fn)
+        ctx.scan([b])
+        fw = ("param", 1, b.debug.get(1, ""))
+        rots = [(bi, t) for bi, t in b.calls(exact="fpgroups::free_words::FreeWord::rotated")]
+        ctx.floor("rotated(..) calls in " + fn.split("::")[-1], len(rots), 1)
+        for bi, t in rots:
+            a = [norm(b.origin(x), gg) for x in t["args"]]
+            r = loop_range_of_payload(b, a[1], gg) if a[1][0] == "field" else None
+            okr = a[0] == fw and r is not None and r[0] == ("int", 0) and not r[2] and r[1] == ("call", "std::vec::Vec::<T, A>::len", (("field", fw, "w"),)) or \
+                (a[0] == fw and r is not None and r[0] == ("int", 0) and not r[2] and r[1][0] == "call" and r[1][1].endswith("::len") and contains(r[1], lambda s: s == fw))
+            ctx.ob("T4-all-rotations", fn, "rotated(i): i in 0..len()", "ok" if okr else "violation",
+                   "every rotation 0..len() of the word is visited" if okr else
+                   "the rotations visited are not all of 0..len() (%s): rotations (and their inverses) are dropped, the set / minimum depends on which rotation of a relator is given" % (r and (show(r[0], 1), show(r[1], 1)[:40], r[2]),), b.span_of(bi))
+            every_iteration_reaches(ctx, "T4-all-rotations", b, bi, "rotation-loop->rotated(i)", "some rotation index is skipped")
+        rot_terms = [norm(b.local_origin(t["dest"]["l"]), gg) for bi, t in rots if not t["dest"]["p"]]
+        invs = [norm(b.local_origin(t["dest"]["l"]), gg) for bi, t in b.calls(exact="fpgroups::free_words::FreeWord::inverse") if not t["dest"]["p"]]
+        okinv = any(iv[2][0] in rot_terms for iv in invs if iv[0] == "call")
+        ctx.require(okinv, "T4-all-rotations", fn, "inverse(rotated(i))", "the inverse of every rotation is considered as well", "the inverses of the rotations are not considered")
+        if fn.endswith("relator_permutations"):
+            vals = [norm(b.origin(t["args"][1]), gg) for bi, t in b.calls("BTreeSet::<T, A>::insert")]
+            okboth = any(v in rot_terms for v in vals) and any(v[0] == "call" and v[1].endswith("FreeWord::inverse") for v in vals)
+            ctx.require(okboth, "T4-all-rotations", fn, "insert(w), insert(w.inverse())", "both the rotation and its inverse are inserted", "not both the rotation and its inverse are inserted")
     # ---- normalized shape
     nb = ctx.body("fpgroups::free_words::normalized")
     check_normalized(ctx, nb)
